@@ -6,6 +6,7 @@
 #include "fe_common.hpp"
 #include <rapidcheck.h>
 
+#include <deque>
 #include <iostream>
 #include <tuple>
 
@@ -99,9 +100,12 @@ main(int argc, char** argv)
         }
         // every tape this process has run before its first failure, in order: a failure that no fresh process
         // reproduces is replayed as a sequence (hist.seq, minimised by vcheck.py)
-        static std::vector<std::vector<VhTok>> history;
-        if (!in_shrink)
+        static std::deque<std::vector<VhTok>> history; // (the most recent 4096: what vcheck.py is prepared to replay)
+        if (!in_shrink) {
             history.push_back(tape);
+            if (history.size() > 4096)
+                history.pop_front();
+        }
         VhReport r;
         memset(&r, 0, sizeof r);
         vh_run(tape.data(), tape.size(), &r);
